@@ -55,13 +55,29 @@ func c01(r *ev.Run, replay string) {
 					}
 				}()
 				rng := r.Rand(fmt.Sprintf("%s/%d", sg.Name, sh))
-				pool := gen.PoolWithVariants(rng, sg.Sys, sg.Gen, n, func(s string) bool {
+				g := sg.Gen
+				if sh%6 == 5 {
+					// Every sixth pool is dominated by components at the
+					// edges of the 32- and 64-bit integer ranges.
+					g = gen.Extreme(g)
+					r.Count("extreme_pools:"+sg.Name, 1)
+				}
+				accept := func(s string) bool {
 					if sg.Sys == semver.Maven && !gen.MavenInDomain(s) {
 						return false
 					}
 					_, err := sg.Sys.Parse(s)
 					return err == nil
-				})
+				}
+				var pool []string
+				if sh%6 == 4 {
+					// Families that differ in one component only, that
+					// component running over 0, 1 and the integer edges.
+					pool = gen.ExtremeFamilies(rng, sg.Gen, n, accept)
+					r.Count("extreme_family_pools:"+sg.Name, 1)
+				} else {
+					pool = gen.PoolWithVariants(rng, sg.Sys, g, n, accept)
+				}
 				c01Pool(r, sg, pool, rng)
 			}(sg, sh)
 		}
